@@ -255,28 +255,11 @@ def r_trr(path, na):
 
 
 def r_xtc(path, na):
-    """header of every frame; coordinates only when stored raw (<= 9 atoms). Compressed frames are skipped by their byte count."""
-    b = open(path, "rb").read()
-    o = 0
-    frames = []; times = []; cells = []
-    while o < len(b):
-        magic, natoms, step = struct.unpack(">iii", b[o:o + 12]); o += 12
-        if magic != 1995:
-            raise ValueError("xtc magic %d" % magic)
-        tm = struct.unpack(">f", b[o:o + 4])[0]; o += 4
-        cells.append(_box_to_cell(struct.unpack(">9f", b[o:o + 36]))); o += 36
-        n2 = struct.unpack(">i", b[o:o + 4])[0]; o += 4
-        if n2 <= 9:
-            frames.append(np.array(struct.unpack(">%df" % (3 * n2), b[o:o + 12 * n2])).reshape(n2, 3).tolist()); o += 12 * n2
-        else:
-            prec = struct.unpack(">f", b[o:o + 4])[0]; o += 4
-            if abs(prec - 1000.0) > 1e-3:
-                raise ValueError("xtc precision %r" % prec)
-            o += 24 + 4     # minint, maxint, smallidx
-            nb = struct.unpack(">i", b[o:o + 4])[0]; o += 4 + (nb + 3) // 4 * 4
-            frames.append(None)
-        times.append(tm)
-    return dict(xyz=frames, xyz_text=None, time=times, cell=cells)
+    """independent decoder (harness/vp/xtcdec.py): headers, raw coordinates (<= 9 atoms) and the compressed integer coordinates"""
+    from ..xtcdec import read_xtc
+    fr = read_xtc(path)
+    return dict(xyz=[f["xyz"].tolist() for f in fr], xyz_text=None, xyz_ints=[None if f["ints"] is None else f["ints"].tolist() for f in fr],
+                time=[f["time"] for f in fr], cell=[_box_to_cell(f["box"]) for f in fr], prec=[f["prec"] for f in fr])
 
 
 def r_dcd(path, na):
@@ -423,6 +406,13 @@ def _check_in(case, d, md):
                     a, x = bad[0]
                     probs.append("file value (native %s) of frame %d atom %d axis %d is %r = %.6f nm, the trajectory holds %.6f nm (allowed error %.2g nm)"
                                  % (case["unit"], fr, a, x, F[a, x], F[a, x] * unitU * U, V[fr, a, x] * U, TOL[fr, a, x] * U)); break
+                if case["exact_quanta"] and ind.get("xyz_ints") and ind["xyz_ints"][fr] is not None:
+                    N = np.array(ind["xyz_ints"][fr]); LO = np.array(case["lo"][fr]); HI = np.array(case["hi"][fr])
+                    if ((N < LO) | (N > HI)).any():
+                        a, x = np.argwhere((N < LO) | (N > HI))[0]
+                        probs.append("compressed integer %d of frame %d atom %d axis %d is not a correct rounding of %.6f nm at precision 1000" % (N[a, x], fr, a, x, V[fr, a, x] * U)); break
+                    if abs(ind["prec"][fr] - 1000.0) > 1e-3:
+                        probs.append("XTC precision field is %r" % ind["prec"][fr]); break
                 if case["exact_quanta"] and ind.get("xyz_text"):
                     dec = int(round(np.log10(unitU / case["q"])))
                     LO = np.array(case["lo"][fr]); HI = np.array(case["hi"][fr])
@@ -549,8 +539,8 @@ def run(ctx):
     shutil.rmtree(ddir, ignore_errors=True)
     cov = dict(traces_validated_against_impl=len(cases), cases_emitted=len(r.tr), replays_failing=nfail, extensions=sorted({c["ext"] for c in cases}),
                samples=[{k: v for k, v in cases[0].items() if k in ("ext", "na", "nf", "pat", "cellkind", "timekind", "opt", "save", "cell", "time_kept")}],
-               explanation="each case: Trajectory.save; the file parsed by an independent reader (text columns, struct for TRR/XTC headers+raw coordinates/DCD, scipy.io.netcdf_file for NetCDF, "
+               explanation="each case: Trajectory.save; the file parsed by an independent reader (text columns, struct for TRR/DCD, an independent XTC decompressor, scipy.io.netcdf_file for NetCDF, "
                            "tables for HDF5) and compared with the native numbers Formats.tla allows (unit, quantum, rounding range per coordinate, times, cell, file series, TER/header options); "
                            "then md.load / load_restrt and md.open().read() compared with file and original")
-    return ctx.finish(cov, "model_checking", ["XTC coordinates of frames with more than 9 atoms (compressed) and DTR files are read back only with mdtraj's own reader (no independent decompressor); headers of XTC are parsed independently",
+    return ctx.finish(cov, "model_checking", ["DTR files are read back only with mdtraj's own reader; XTC is decoded by an independent decompressor (harness/vp/xtcdec.py, self-checked against the GROMACS-written files of tests/data)",
                                               "coordinates up to +/-1000 nm; lengths in units of 1e-5 nm; float32 slack 2 + |v|/2e6 units"])
